@@ -36,7 +36,8 @@ Qed.
 
 Lemma conv_var_spec dflt v : dom_var v = true -> conv_var dflt v = spec_var v.
 Proof.
-  unfold dom_var, conv_var, spec_var. intros H.
+  unfold dom_var, conv_var, nc_load_var, convert_var, nc_mask_fill, spec_var.
+  cbn [i_name i_dt i_dims i_fill i_mv i_dfill i_attrs i_raw]. fold (eff_fill v). intros H.
   apply andb_true_iff in H as [H H3]. apply andb_true_iff in H as [H1 H2].
   rewrite (conv_attrs_id _ _ H1). f_equal. apply load_store_cells; [|exact H3].
   unfold masked_has_fill in H2. apply orb_true_iff in H2 as [H2|H2].
@@ -56,9 +57,28 @@ Proof.
 Qed.
 
 (* the whole file: every number of dimensions, attributes, variables, cells *)
+Lemma load_convert_dim vs d : nc_load_dim (convert_dim vs d) = conv_dim vs d.
+Proof. destruct d as [n l u]. unfold nc_load_dim, convert_dim, conv_dim; cbn. destruct u; reflexivity. Qed.
+
+(* stage 1 alone, no assumption: what is written at unmasked positions is the input value; at masked
+   positions it is the value declared as _FillValue (whenever the variable has any fill) *)
+Lemma convert_raw_cells dflt v c :
+  chosen_fill v = Some c ->
+  Forall2 (fun cell x => match cell with Some y => x = y | None => x = c end) (p_cells v) (i_raw (convert_var dflt v)).
+Proof.
+  intros H. unfold convert_var; cbn [i_raw]. unfold data_fill. rewrite H.
+  induction (p_cells v) as [|cell t IH]; cbn [store_cells map]; constructor; [destruct cell; reflexivity|exact IH].
+Qed.
+
+Lemma convert_dim_request vs d :
+  id_size (convert_dim vs d) = (if d_unlim d then None else Some (d_len d)).
+Proof. reflexivity. Qed.
+
 Lemma save_open_id dflt f : dom f = true -> impl_save_open dflt f = spec_save_open f.
 Proof.
-  unfold dom, impl_save_open, spec_save_open. intros H.
+  unfold dom, impl_save_open, spec_save_open, nc_load, impl_convert. cbn [im_dims im_gattrs im_vars]. intros H.
+  rewrite !map_map. rewrite (map_ext _ _ (load_convert_dim (pf_vars f))). fold (conv_var dflt).
+  change (map (fun x => nc_load_var (convert_var dflt x)) (pf_vars f)) with (map (conv_var dflt) (pf_vars f)).
   apply andb_true_iff in H as [H H3]. apply andb_true_iff in H as [H1 H2].
   rewrite (conv_dims_id _ _ H1), (conv_attrs_id _ _ H2). f_equal.
   induction (pf_vars f) as [|v t IH]; [reflexivity|]. cbn [forallb] in H3.
